@@ -183,6 +183,12 @@ func checkBytes(kind string, in []byte) {
 		r.Violation("bytes: nil VAA without error ("+kind+")", "", map[string]string{"kind": kind, "hex": hex.EncodeToString(b)})
 		return
 	}
+	if len(v.Payload) == 0 {
+		// the representable range is "a VAA with a non-empty payload": a string that ends right after the
+		// consistency level is the encoding of none of them, i.e. one of the "other" byte strings
+		r.Violation("bytes: the decoder accepted an input without payload bytes (the encoding of no VAA in the stated range)", fmt.Sprintf("%d bytes, %d signatures (%s)", len(b), len(v.Signatures), kind), map[string]interface{}{"kind": kind, "len": len(b), "hex": hex.EncodeToString(b)})
+		return
+	}
 	out, err := v.Marshal()
 	if err != nil || !bytes.Equal(out, b) {
 		hx := hex.EncodeToString(b)
